@@ -162,6 +162,7 @@ class Interp:
         self.summarised = 0
         self.trips = []         # (guard, trip term) of every counted DO loop
         self.int_divs = []      # (numerator, denominator) of every integer division evaluated
+        self.concrete_inputs = {}   # storage key / extent name -> concrete z3 value (replay mode)
         self.gcur = None        # guard of the expression being evaluated (for conformance hypotheses)
         self._collect()
 
@@ -243,6 +244,8 @@ class Interp:
         srt = arr_sort(sort_of(tname), rank)
         if init is None:
             init = z3.Const(key, srt)
+            if is_input and key in self.concrete_inputs:
+                init = self.concrete_inputs[key]
         self.store[key] = init
         self.meta[key] = (tname, rank)
         if is_input:
@@ -310,6 +313,12 @@ class Interp:
 
     def exec_routine_body(self, node, frame, guard):
         for part in node.content:
+            if isinstance(part, F.Specification_Part) and self.comment_handler is not None:
+                # a directive placed before the first executable statement is parsed as a
+                # comment of the specification part
+                for c in walk(part, F.Comment):
+                    if str(c).strip().startswith("!$"):
+                        self.comment_handler(self, str(c), frame, guard)
             if isinstance(part, F.Execution_Part):
                 self.exec_block(part.content, frame, guard)
 
@@ -494,6 +503,7 @@ class Interp:
                 ext = z3.Int(f"ext_{name}_{dpos}")
                 self.assumptions.append(ext >= 0)
                 self.inputs[f"ext_{name}_{dpos}"] = ext
+                ext = self.concrete_inputs.get(f"ext_{name}_{dpos}", ext)
                 ub = lb + ext - 1
             else:
                 raise Unsupported("shape " + type(s).__name__)
@@ -819,6 +829,7 @@ class Interp:
             val = simp(lo + k * st)
             self.write(vb.key, vb.fixed, val, itg)
             self.iters.append((loop_id, k, val))
+            self.ev_event(itg, "ITER", vb.key, ())
             self.exec_block(body, frame, itg)
             self.iters.pop()
         ctl.cycle = z3.BoolVal(False)
